@@ -315,6 +315,20 @@ def _run_unit_once(unit, verify_args, tier, seed, prefixes, res, pulls):
     res["cmd"] = cmd
     res["wall_s"] = dt
     res["vac_wall_s"] = dtv
+    # thorough tier: the same obligations under two further solver seeds. A proof that holds under one seed and fails under another
+    # is brittle, not a violation: reported as a tool error (exit 2), never as an alarm
+    res["seed_runs"] = []
+    if tier == "thorough" and not out.get("verification-results", {}).get("errors") and not out.get("verification-results", {}).get("encountered-error"):
+        for extra in ((seed or 0) + 101, (seed or 0) + 202):
+            try:
+                o2, d2, r2, dt2, c2 = run_verus(rs, verify_args, os.path.join(BUILD, unit + f"_seed{extra}"), 8, None, extra)
+            except ToolError as e:
+                res["tool_errors"].append(str(e))
+                continue
+            v2 = o2.get("verification-results", {})
+            res["seed_runs"].append({"seed": extra, "verified": v2.get("verified"), "errors": v2.get("errors"), "wall_s": round(dt2, 1)})
+            if v2.get("errors") or v2.get("encountered-error"):
+                res["tool_errors"].append(f"unstable proof: verifies with solver seed {seed} but not with seed {extra} ({v2.get('errors')} errors)")
     res["verus"] = out.get("verification-results", {})
     failures, terrs = classify(unit, rs, meta, out, diags)
     res["failures"] = failures
